@@ -1717,6 +1717,19 @@ func randomRun(rq RandReq) (res Result) {
 		evm["ok"] = e == nil
 		ev(evm)
 		if crash && !inWal || (inWal && e == nil) {
+			if dirty := storage.VerifDirtyCount(w.sess.RelationService); dirty > 0 && rq.Cache == 0 && rng.Intn(3) == 0 {
+				// the process dies at the beginning of the flush of a shutdown: the session is closed, and the first page write
+				// of the store's final flush never happens (whatever a shutdown does before that flush, nothing acknowledged
+				// may depend on the flush completing). Later page writes are not cut here: a flush torn after its first write
+				// is the subject of the enumerated C04 scenarios, where the known finding can be told apart.
+				storage.VerifFailPageWrite(1)
+				func() {
+					defer func() { recover() }()
+					w.sess.Close()
+				}()
+				storage.VerifRepairFile()
+				res.Stats["crash-in-shutdown-flush"]++
+			}
 			w.abandon()
 			omark(map[string]interface{}{"e": "crash", "maxlsn": walMax()})
 			res.Stats["crash-idle"]++
